@@ -154,6 +154,8 @@ package tmi
 //@   ensures committing-kept: s.Committing.Height == old(s.Committing.Height) && s.Committing.Round == old(s.Committing.Round)
 //@   ensures jump-ahead-delivered: old(s.StateMachineViewManager.roundEntrance.H) == old(s.Voting.Height) && old(s.StateMachineViewManager.roundEntrance.R) == old(s.Voting.Round) ==>
 //@       s.StateMachineViewManager.jumpAhead != nil && s.StateMachineViewManager.jumpAhead.Height == s.Voting.Height && s.StateMachineViewManager.jumpAhead.Round == s.Voting.Round
+//@   ensures jump-ahead-only-for-the-round-left: !(old(s.StateMachineViewManager.roundEntrance.H) == old(s.Voting.Height) && old(s.StateMachineViewManager.roundEntrance.R) == old(s.Voting.Round)) ==>
+//@       s.StateMachineViewManager.jumpAhead == old(s.StateMachineViewManager.jumpAhead)
 //@   modifies s.Voting, s.NextRound, s.GossipViewManager.Voting.VRV, s.GossipViewManager.NextRound.VRV, s.StateMachineViewManager.outgoingView,
 //@       old(s.Voting.PrevoteProofs)[*], old(s.Voting.PrecommitProofs)[*], old(s.Voting.PrevoteBlockVersions)[*], old(s.Voting.PrecommitBlockVersions)[*],
 //@       old(s.Voting.VoteSummary.PrevoteBlockPower)[*], old(s.Voting.VoteSummary.PrecommitBlockPower)[*], old(s.Voting.ProposedHeaders)[*],
@@ -234,6 +236,67 @@ package tmi
 //@     (len(s.NextRound.ProposedHeaders) == 0 || arr(s.NextRound.ProposedHeaders) != arr(s.Voting.ProposedHeaders))
 //@ define KBounds(s) = s.Voting.Height < MAXU64 && s.Voting.Round < MAXU32 - 1 && s.Voting.Version < MAXU32 && s.NextRound.Version < MAXU32 && s.Committing.Version < MAXU32
 //@ define twoThirds(vs, h) = 3 * vs.PrecommitBlockPower[h] > 2 * vs.AvailablePower
+
+// The kernel-level round changes: the state change of kState.{Jump,Advance}VotingRound followed by recording the new position.
+// The position is recorded after, and equal to, the in-memory change (C04: a restart never resumes behind the recorded position).
+//@ func Kernel.jumpVotingRound
+//@   property C04 C10 C11
+//@   requires k.store != nil && KInv(s)
+//@   requires s.NextRound.Height == s.Voting.Height && s.NextRound.Round == s.Voting.Round + 1
+//@   requires s.Voting.Round < MAXU32 - 1 && s.NextRound.Version < MAXU32 && s.Voting.Version < MAXU32
+//@   ensures height-kept: s.Voting.Height == old(s.Voting.Height) && s.NextRound.Height == old(s.Voting.Height)
+//@   ensures round-plus-one: s.Voting.Round == old(s.Voting.Round) + 1 && s.NextRound.Round == s.Voting.Round + 1
+//@   ensures proposed-headers-carried: s.Voting.ProposedHeaders == old(s.NextRound.ProposedHeaders) && len(s.NextRound.ProposedHeaders) == 0 &&
+//@       arr(s.NextRound.ProposedHeaders) == old(arr(s.Voting.ProposedHeaders))
+//@   ensures vote-state-carried: s.Voting.PrecommitProofs == old(s.NextRound.PrecommitProofs) && s.Voting.PrevoteProofs == old(s.NextRound.PrevoteProofs) &&
+//@       s.Voting.ValidatorSet == old(s.NextRound.ValidatorSet) && s.Voting.VoteSummary == old(s.NextRound.VoteSummary)
+//@   ensures next-round-reset: s.NextRound.PrecommitProofs == old(s.Voting.PrecommitProofs) && s.NextRound.PrevoteProofs == old(s.Voting.PrevoteProofs) &&
+//@       (forall h string :: {rawdom(s.NextRound.PrecommitProofs)[h]} !(h in s.NextRound.PrecommitProofs)) && (forall h string :: {rawdom(s.NextRound.PrevoteProofs)[h]} !(h in s.NextRound.PrevoteProofs)) &&
+//@       s.NextRound.ValidatorSet == old(s.Voting.ValidatorSet) && s.NextRound.VoteSummary.AvailablePower == old(s.Voting.VoteSummary.AvailablePower) &&
+//@       s.NextRound.VoteSummary.PrecommitBlockPower == old(s.Voting.VoteSummary.PrecommitBlockPower) && s.NextRound.VoteSummary.PrevoteBlockPower == old(s.Voting.VoteSummary.PrevoteBlockPower)
+//@   ensures version-bump: s.Voting.Version == old(s.NextRound.Version) + 1 && s.NextRound.Version == 1
+//@   ensures committing-kept: s.Committing.Height == old(s.Committing.Height) && s.Committing.Round == old(s.Committing.Round)
+//@   ensures jump-ahead-delivered: old(s.StateMachineViewManager.roundEntrance.H) == old(s.Voting.Height) && old(s.StateMachineViewManager.roundEntrance.R) == old(s.Voting.Round) ==>
+//@       s.StateMachineViewManager.jumpAhead != nil && s.StateMachineViewManager.jumpAhead.Height == s.Voting.Height && s.StateMachineViewManager.jumpAhead.Round == s.Voting.Round
+//@   ensures jump-ahead-only-for-the-round-left: !(old(s.StateMachineViewManager.roundEntrance.H) == old(s.Voting.Height) && old(s.StateMachineViewManager.roundEntrance.R) == old(s.Voting.Round)) ==>
+//@       s.StateMachineViewManager.jumpAhead == old(s.StateMachineViewManager.jumpAhead)
+//@   ensures position-recorded: result == nil ==> msvh(0) == s.Voting.Height && msvr(0) == s.Voting.Round && msch(0) == s.Committing.Height && mscr(0) == s.Committing.Round
+//@   ensures store-kept-on-error: result != nil ==> msvh(0) == old(msvh(0)) && msvr(0) == old(msvr(0)) && msch(0) == old(msch(0)) && mscr(0) == old(mscr(0))
+//@   ensures headers-kept: s.CommittingHeader == old(s.CommittingHeader) && hmax(0) == old(hmax(0))
+//@   modifies s.Voting, s.NextRound, s.GossipViewManager.Voting.VRV, s.GossipViewManager.NextRound.VRV, s.StateMachineViewManager.outgoingView,
+//@       old(s.Voting.PrevoteProofs)[*], old(s.Voting.PrecommitProofs)[*], old(s.Voting.PrevoteBlockVersions)[*], old(s.Voting.PrecommitBlockVersions)[*],
+//@       old(s.Voting.VoteSummary.PrevoteBlockPower)[*], old(s.Voting.VoteSummary.PrecommitBlockPower)[*], old(s.Voting.ProposedHeaders)[*],
+//@       s.StateMachineViewManager.jumpAhead,
+//@       msvh(0), msvr(0), msch(0), mscr(0)
+
+//@ func Kernel.advanceVotingRound
+//@   property C04 C10 C11
+//@   requires k.store != nil && KInv(s)
+//@   requires s.NextRound.Height == s.Voting.Height && s.NextRound.Round == s.Voting.Round + 1
+//@   requires s.Voting.Round < MAXU32 - 1 && s.NextRound.Version < MAXU32 && s.Voting.Version < MAXU32
+//@   ensures height-kept: s.Voting.Height == old(s.Voting.Height) && s.NextRound.Height == old(s.Voting.Height)
+//@   ensures round-plus-one: s.Voting.Round == old(s.Voting.Round) + 1 && s.NextRound.Round == s.Voting.Round + 1
+//@   ensures proposed-headers-carried: s.Voting.ProposedHeaders == old(s.NextRound.ProposedHeaders) && len(s.NextRound.ProposedHeaders) == 0 &&
+//@       arr(s.NextRound.ProposedHeaders) == old(arr(s.Voting.ProposedHeaders))
+//@   ensures vote-state-carried: s.Voting.PrecommitProofs == old(s.NextRound.PrecommitProofs) && s.Voting.PrevoteProofs == old(s.NextRound.PrevoteProofs) &&
+//@       s.Voting.ValidatorSet == old(s.NextRound.ValidatorSet) && s.Voting.VoteSummary == old(s.NextRound.VoteSummary)
+//@   ensures next-round-reset: s.NextRound.PrecommitProofs == old(s.Voting.PrecommitProofs) && s.NextRound.PrevoteProofs == old(s.Voting.PrevoteProofs) &&
+//@       (forall h string :: {rawdom(s.NextRound.PrecommitProofs)[h]} !(h in s.NextRound.PrecommitProofs)) && (forall h string :: {rawdom(s.NextRound.PrevoteProofs)[h]} !(h in s.NextRound.PrevoteProofs)) &&
+//@       s.NextRound.ValidatorSet == old(s.Voting.ValidatorSet) && s.NextRound.VoteSummary.AvailablePower == old(s.Voting.VoteSummary.AvailablePower) &&
+//@       s.NextRound.VoteSummary.PrecommitBlockPower == old(s.Voting.VoteSummary.PrecommitBlockPower) && s.NextRound.VoteSummary.PrevoteBlockPower == old(s.Voting.VoteSummary.PrevoteBlockPower)
+//@   ensures version-bump: s.Voting.Version == old(s.NextRound.Version) + 1 && s.NextRound.Version == 1
+//@   ensures committing-kept: s.Committing.Height == old(s.Committing.Height) && s.Committing.Round == old(s.Committing.Round)
+//@   ensures nil-voted-round-retained: s.GossipViewManager.NilVotedRound != nil &&
+//@       s.GossipViewManager.NilVotedRound.Height == old(s.Voting.Height) && s.GossipViewManager.NilVotedRound.Round == old(s.Voting.Round) &&
+//@       s.GossipViewManager.NilVotedRound.Version == old(s.Voting.Version)
+//@   ensures position-recorded: result == nil ==> msvh(0) == s.Voting.Height && msvr(0) == s.Voting.Round && msch(0) == s.Committing.Height && mscr(0) == s.Committing.Round
+//@   ensures store-kept-on-error: result != nil ==> msvh(0) == old(msvh(0)) && msvr(0) == old(msvr(0)) && msch(0) == old(msch(0)) && mscr(0) == old(mscr(0))
+//@   ensures headers-kept: s.CommittingHeader == old(s.CommittingHeader) && hmax(0) == old(hmax(0))
+//@   modifies s.Voting, s.NextRound, s.GossipViewManager.Voting.VRV, s.GossipViewManager.NextRound.VRV, s.StateMachineViewManager.outgoingView,
+//@       old(s.Voting.PrevoteProofs)[*], old(s.Voting.PrecommitProofs)[*], old(s.Voting.PrevoteBlockVersions)[*], old(s.Voting.PrecommitBlockVersions)[*],
+//@       old(s.Voting.VoteSummary.PrevoteBlockPower)[*], old(s.Voting.VoteSummary.PrecommitBlockPower)[*], old(s.Voting.ProposedHeaders)[*],
+//@       s.GossipViewManager.NilVotedRound, s.GossipViewManager.pendingRoundSessionChanges, s.GossipViewManager.pendingRoundSessionChanges[*], s.GossipViewManager.inGrace[*],
+//@       msvh(0), msvr(0), msch(0), mscr(0)
 
 // ---- vote state of a view (C01, C05): every stored precommit proof is a verified proof over the view's own validator set ----
 // proofOK: a proof stored under target h of view v is non-nil, every set bit is a candidate key that signed (ProofInv),
@@ -324,3 +387,27 @@ package tmi
 //@       mapvals(tempProofs)[x] != nil && base(mapvals(tempProofs)[x]) <= top() && ProofInv(mapvals(tempProofs)[x]) &&
 //@       pkeys(mapvals(tempProofs)[x]) == valSet.PubKeys && pkhash(mapvals(tempProofs)[x]) == string(valSet.PubKeyHash) &&
 //@       pmsg(mapvals(tempProofs)[x]) == precommitMsg(h, r, x))
+
+// ---- what the kernel answers to the mirror (C09, C05): rely/guarantee by channel invariants ----
+// A found view is one of the three views the mirror handlers know how to treat.
+//@ chaninv ViewLookupRequest.Resp(v): v.Status == ViewFound ==> (v.ID == ViewIDVoting || v.ID == ViewIDCommitting || v.ID == ViewIDNextRound)
+
+//@ func Kernel.copySnapshotView
+//@   property C09
+//@   requires dst != nil
+//@   modifies memory except Kernel
+
+//@ func Kernel.sendViewLookupResponse
+//@   property C09 C05
+//@   requires req.Reason != "" && req.VRV != nil && req.Resp != nil
+//@   requires s.Voting.Round < MAXU32 && s.Voting.Height >= 1 && (s.Voting.Height == s.Committing.Height + 1 || s.Committing.Height == 0)
+//@   modifies memory except Kernel
+
+// What the kernel answers to add-vote requests. Guaranteed by addPrevote/addPrecommit (their sends) and by the result of
+// addFuturePrevote/addFuturePrecommit (sent unchanged by the main loop); relied upon by the mirror's vote handlers.
+//@ define currentVoteAnswer(v) = v == AddVoteAccepted || v == AddVoteConflict || v == AddVoteOutOfDate
+//@ define futureVoteAnswer(v) = v == AddVoteAccepted || v == AddVoteRedundant || v == AddVoteInternalError
+//@ chaninv AddPrecommitRequest.Response(v): currentVoteAnswer(v)
+//@ chaninv AddPrevoteRequest.Response(v): currentVoteAnswer(v)
+//@ chaninv AddFuturePrevoteRequest.Resp(v): futureVoteAnswer(v)
+//@ chaninv AddFuturePrecommitRequest.Resp(v): futureVoteAnswer(v)
